@@ -90,6 +90,8 @@ def g_closed(s, P):
             kw['dmask'] = s.choice([1, 2])
         if fn != 'FIM' and s.chance(0.3):
             kw['bcont'] = s.choice(['array', 'tuple'])
+        if fn != 'FIM' and s.chance(0.15):
+            kw['zboot'] = 1           # one replicate without any SNP
         if s.chance(0.12) and kw.get('bcont') != 'array':
             kw['fold'] = True         # folded data and bootstraps: the likelihood folds the model
         P.add('C19.closed_form', fn, k, seed, ns, p0, multinom, eps, s.randint(0, 3), nboot, **kw)
